@@ -60,6 +60,12 @@ type AVCSPS struct {
 	QPPrimeBypass   bool
 	ScalingMatrix   bool // writes a matrix with some lists present
 	ScalingSeed     uint64
+	// ScalingShort (default off: every present list carries all of its 16/64 delta_scale values):
+	// about two thirds of the present lists end early, either with delta_scale -8 as the first
+	// value (next scale 0 at j=0: "use the default list", no further delta follows) or after
+	// 1..size-1 values with a delta that makes the next scale 0 (the rest of the list repeats the
+	// last value and no further delta follows), 14496-10 7.3.2.1.1.1
+	ScalingShort bool
 
 	Log2MaxFrameNumM4 uint64
 	PocType           uint64 // 0,1,2
@@ -124,7 +130,29 @@ func (p *AVCSPS) NAL() []byte {
 				// scaling_list(): delta_scale values; keep nextScale != 0 so that
 				// all `size` deltas are present (lastScale=8, nextScale=8+delta)
 				last := int64(8)
+				cut := size // number of deltas that keep the next scale non-zero
+				if p.ScalingShort {
+					s = s*6364136223846793005 + 1442695040888963407
+					switch (s >> 35) % 3 {
+					case 1:
+						cut = 0
+					case 2:
+						cut = 1 + int((s>>40)%uint64(size-1))
+					}
+				}
+				if cut == 0 {
+					w.SE(-8) // 8 + (-8) = 0 at j = 0
+					continue
+				}
 				for j := 0; j < size; j++ {
+					if j == cut {
+						delta := -last // next scale 0: the list ends here
+						if delta < -128 {
+							delta += 256
+						}
+						w.SE(delta)
+						break
+					}
 					s = s*6364136223846793005 + 1442695040888963407
 					target := int64(1 + (s>>40)%200) // 1..200, never 0
 					delta := target - last
@@ -185,6 +213,55 @@ func (p *AVCSPS) NAL() []byte {
 	}
 	w.TrailingBits()
 	return append([]byte{0x67}, bitw.Escape(w.Bytes())...)
+}
+
+// ScalingShapes names, for the evidence, how each of the scaling lists of the SPS is written
+// ("absent", "full", "use-default", "tail-cut"); nil without a scaling matrix. It replays the
+// draws of NAL.
+func (p *AVCSPS) ScalingShapes() []string {
+	if !AVCHighSyntax(p.ProfileIDC) || !p.ScalingMatrix {
+		return nil
+	}
+	n := 8
+	if p.ChromaFormatIDC == 3 {
+		n = 12
+	}
+	var out []string
+	s := p.ScalingSeed
+	for i := 0; i < n; i++ {
+		s = s*6364136223846793005 + 1442695040888963407
+		if (s>>33)&1 != 1 {
+			out = append(out, "absent")
+			continue
+		}
+		size := 16
+		if i >= 6 {
+			size = 64
+		}
+		cut := size
+		if p.ScalingShort {
+			s = s*6364136223846793005 + 1442695040888963407
+			switch (s >> 35) % 3 {
+			case 1:
+				cut = 0
+			case 2:
+				cut = 1 + int((s>>40)%uint64(size-1))
+			}
+		}
+		switch {
+		case cut == 0:
+			out = append(out, "use-default")
+			continue
+		case cut < size:
+			out = append(out, "tail-cut")
+		default:
+			out = append(out, "full")
+		}
+		for j := 0; j < cut; j++ {
+			s = s*6364136223846793005 + 1442695040888963407
+		}
+	}
+	return out
 }
 
 // Info gives the quantities implied by the chosen values (equations 7-13 to
